@@ -409,6 +409,32 @@ def nikolaev(ctx):
                       "slot settled before the dequeuer " + what,
                       "the dequeuer %s on a path where its slot was neither consumed, stamped with its cycle, nor found settled: an enqueuer that obtains the same ticket "
                       "deposits its index behind head and the element (or free slot) is lost" % what, fn.where(t), fn=fn, path=flow.describe_path(fn, path))
+    # node hand-over: a node is abandoned only after a re-scan with the threshold re-armed
+    rid_ho = "NQ.handover-rescan"
+    ctx.rule(rid_ho, "nikolaev_queue::do_pop swings _head past a node only on the failure edge of a dequeue on that node's allocated queue that was performed "
+                     "AFTER the node's dequeue threshold was re-armed (set_threshold), which in turn happens only after a successor was observed (_next != null): "
+                     "SCQ's dequeue gives up without scanning while the threshold is negative, and an enqueuer re-arms the threshold only after its entry CAS - "
+                     "a first failed dequeue therefore does not show that the finalized node is drained")
+    for fn in flow._shapes(ctx, X + "nikolaev_queue::do_pop"):
+        hcas = flow.find(fn, cas_on("nikolaev_queue::_head", "_head CAS"))
+        if not hcas:
+            ctx.broken.append("nikolaev_queue::do_pop: no CAS on _head")
+            continue
+        sts = [e for e in flow.find(fn, {"k": "call"}) if fn.nodes[e].get("callee", "").endswith("nikolaev_scq::set_threshold")]
+        dqs = [e for e in flow.find(fn, {"k": "call"}) if fn.nodes[e].get("callee", "").endswith("nikolaev_scq::dequeue") and "_allocated_queue" in fn.expr(e)]
+        rearmed = [d for d in dqs if any(fn.before(s_, d) for s_ in sts)]
+        for h_ in hcas:
+            ok, path, n = flow.only_via(fn, h_, lambda f_, nid: nid in rearmed, False)
+            ctx.check(ok and n > 0, rid_ho, X + "nikolaev_queue::do_pop#head-swing|rescan-failed", "head is swung only after the re-armed re-scan failed",
+                      "the CAS that swings _head past the node is reachable without a failed dequeue that was performed after set_threshold(): a popper that arrives "
+                      "while the threshold is still negative (fresh node, or pops on an empty queue) but entries were already published skips the finalized node and "
+                      "retires it - pushes into it returned, their values are never popped", fn.where(h_), fn=fn, path=flow.describe_path(fn, path))
+        next_null = flow.null_want(lambda f_, x: flow.has_src(f_, x, "load:_next"))
+        for s_ in sts:
+            ok, path, n = flow.only_via_want(fn, s_, flow.negate_want(next_null))
+            ctx.check(ok and n > 0, rid_ho, X + "nikolaev_queue::do_pop#rearm|has-successor", "the threshold is re-armed only when a successor exists",
+                      "set_threshold() is reachable without the node having a successor: re-arming the threshold of the live tail node makes every pop of an "
+                      "empty queue scan the whole ring", fn.where(s_), fn=fn, path=flow.describe_path(fn, path))
     Q = X + "nikolaev_queue::"
     rid2 = "NQ.protocol"
     ctx.rule(rid2, "nikolaev_queue node protocol: construct the element before publishing its index with a finalizable enqueue; roll back (move back, "
@@ -823,6 +849,51 @@ def kfifo(ctx):
                       "so after a tag-only bump of head (committed() of a concurrent push into the head segment) the full ring is taken for 'not full' and tail is moved "
                       "ONTO the head segment - tail laps head, stored elements fall outside [head, tail] and try_pop reports empty although elements are stored",
                       fn.where(t_), fn=fn, path=flow.describe_path(fn, path))
+    # the (head, tail) pair judged by the region predicates is a validated snapshot
+    rid9 = "KF.region-snapshot-consistent"
+    ctx.rule(rid9, "bounded k-FIFO committed(): the (_head, _tail) pair handed to the region predicates is a consistent snapshot - after the _head load "
+                   "_tail is read again and the predicates are reached only through the 'equal' edge of the comparison of that re-read with the tail "
+                   "value in use (tail's tag changes with every update, so equality means both values were current at the same instant).  Two unrelated "
+                   "loads pair a stale position with a fresh one: a stale tail that head has meanwhile passed reads as a wrapped ring and a segment "
+                   "behind head is accepted (F24); a stale head makes pushes and pops fail on a healthy queue (observed with the suite)")
+    for fn in flow._shapes(ctx, B_ + "committed"):
+        preds = [e for b_, i_, e, n_ in fn.events() if n_["k"] == "call" and n_.get("callee", "").split("::")[-1] in ("in_valid_region", "not_in_valid_region")]
+        if not preds:
+            ctx.broken.append("KF.region-snapshot-consistent: committed() does not call in_valid_region / not_in_valid_region any more")
+            continue
+        is_tail = lambda f, x: flow.has_src(f, x, "load:_tail") and not flow.has_src(f, x, "load:_head")
+        tails_equal = flow.cmp_want(is_tail, is_tail)
+        for pe in preds:
+            kids_ = fn.kids(pe)
+            args = kids_[1:] if fn.nodes[pe].get("member") else kids_
+            hl = set()
+            for a_ in args:
+                for ld in flow.src_loads(fn, a_):
+                    if fn.atomic(ld)["field"].endswith("::_head"):
+                        hl.add(ld)
+            if not hl:
+                ctx.broken.append("KF.region-snapshot-consistent: could not find the _head load that feeds %s" % fn.expr(pe)[:60])
+                continue
+            reloads = set()
+
+            def want(f, nid, hl=hl, reloads=reloads):
+                w_ = tails_equal(f, nid)
+                if w_ is None:
+                    return None
+                # one operand must come from a _tail load that is executed after the _head load
+                late = [ld for ld in flow.src_loads(f, nid) if f.atomic(ld)["field"].endswith("::_tail") and all(f.before(h_, ld) for h_ in hl)]
+                if not late:
+                    return None
+                reloads.update(late)
+                return w_
+            ok, path, n = flow.only_via_want(fn, pe, want)
+            leaf = fn.nodes[pe]["callee"].split("::")[-1]
+            ctx.check(ok and n > 0, rid9, B_ + "committed#%s|validated-pair" % leaf,
+                      "the pair is validated by re-reading _tail after the _head load",
+                      "%s() judges a (_head, _tail) pair that was read by two unrelated loads (no re-read of _tail after the _head load guards the call): a pusher "
+                      "delayed between the two loads pairs a stale tail with a head that has already passed it; tail < head then reads as a wrapped ring, the "
+                      "pusher's segment behind head is accepted as valid, try_push reports success and the value is stranded (pop reports empty)" % leaf,
+                      fn.where(pe), fn=fn, path=flow.describe_path(fn, path))
     # head and tail move in whole segments
     rid7 = "KF.segment-step"
     ctx.rule(rid7, "bounded k-FIFO: every CAS on _head / _tail installs either the same index (tag-only bump) or the index of the next segment, "
